@@ -197,3 +197,50 @@ func TestOutputRegisters(t *testing.T) {
 	t.Logf("%d string tokens evaluated", 2*len(tokens))
 	_ = fmt.Sprint
 }
+
+// The Go-level string decoder used as the oracle of the bounded content check agrees with
+// encoding/json on every string over a small alphabet (valid UTF-8 only: encoding/json replaces
+// invalid bytes, the specification keeps them).
+func TestSpecDecodeStringAgainstEncodingJSON(t *testing.T) {
+	alpha := []byte(`"\u/bfnrtD8dC0a9é`)
+	n := 0
+	buf := make([]byte, 0, 8)
+	var rec func(d int)
+	rec = func(d int) {
+		tok := append(append([]byte{'"'}, buf...), '"')
+		var want string
+		err := json.Unmarshal(tok, &want)
+		got, ok := rjvSpecDecodeString(buf)
+		validUTF8 := strings.ToValidUTF8(string(buf), "") == string(buf)
+		if validUTF8 {
+			n++
+			if ok != (err == nil) {
+				t.Fatalf("%q: spec decoder ok=%v, encoding/json err=%v", buf, ok, err)
+			}
+			if ok && string(got) != want {
+				t.Fatalf("%q: spec decoder %q, encoding/json %q", buf, got, want)
+			}
+		}
+		if d == 0 {
+			return
+		}
+		for _, c := range alpha {
+			buf = append(buf, c)
+			rec(d - 1)
+			buf = buf[:len(buf)-1]
+		}
+	}
+	rec(5)
+	for _, s := range []string{`😀`, `😀x`, `\uD83D😀`, `􏿿`, `\uD83D`, `\uDE00`, `\uD83Dx`, `\uD83D\n`, `\uD83D\\uDE00`, `𐀀`, `\u0000`, `\u007f\u0080߿ࠀ￿`} {
+		var want string
+		if err := json.Unmarshal([]byte(`"`+s+`"`), &want); err != nil {
+			t.Fatal(err)
+		}
+		got, ok := rjvSpecDecodeString([]byte(s))
+		if !ok || string(got) != want {
+			t.Fatalf("%q: spec decoder %q (%v), encoding/json %q", s, got, ok, want)
+		}
+		n++
+	}
+	t.Logf("%d contents compared", n)
+}
